@@ -24,6 +24,10 @@ def plan(tier):
     units.append(dict(engine='e2', name='storage_hb', tu='C19mt.cpp', mode='hb', scenarios=sto, opts={'loop_bound': 6, 'rec_bound': 2}, timeout_s=600,
                       space='two threads each allocating a frame on one reusable_storage_mtsafe, writing and re-reading it, and releasing it (equal and different sizes; thorough: two rounds)',
                       bounds='2 threads; all SC interleavings; happens-before as vector clocks', outside='address reuse by the heap (blocks get fresh addresses)'))
+    chn = [dict(name='chain_1sub', nthreads=2, defines=['SUBS=1'])] + ([dict(name='chain_2sub', nthreads=3, defines=['SUBS=2'])])
+    units.append(dict(engine='e2', name='chain_hb', tu='C03chain.cpp', mode='hb', scenarios=chn, opts={'loop_bound': 4, 'rec_bound': 2}, timeout_s=600,
+                      space='the generic awaiter chain (awaiter::subscribe against awaiter::resume_chain, used by signal and the generator aggregator): one or two registering threads, one collecting thread',
+                      bounds='2..3 threads; all SC interleavings; happens-before as vector clocks', outside='as above'))
     # (b) lock discipline of the mutex-protected components (E1, -DVF_DISCIPLINE)
     L = 3 if tier == 'quick' else 4
     def hist(alpha, extra=()):
